@@ -187,6 +187,14 @@ def r3(cx, rec):
                         tup.append(order)
                         rec.site(cf, bi, 'per-file keys %s' % order)
         rec.need(tup == [['length', 'path']], 'file-keys', owner[0], None, 'per-file keys are %s, expected [length, path]' % tup)
+    # the list builders only pattern-match: no value comparison silently drops entries
+    if owner:
+        for c2 in F.children(owner[0].path):
+            cf = F.fns[c2]
+            extra = [show(cf.cond(sb)[0])[:60] for sb in cf.switches() if cf.cond(sb)[0][0] != 'discr']
+            rec.site(cf, None, 'non-pattern conditions in the file-list closure: %s' % extra)
+            rec.need(not extra, 'file-list-extra-filter', cf, None,
+                     'the file list drops entries by a value test (%s): the parsed list no longer equals the document' % extra)
     # single-file layout: File{length: <find_length>, path: name}
     for bi, si, e in mirq.agg_sites(P, r'^metainfo::File$'):
         fs = dict(e[4])
@@ -233,6 +241,13 @@ def r3(cx, rec):
             chain = [cf.expr_call(bb)[1].split('::')[-1] for bb in mirq.real_calls(cf)]
             rec.site(cf, None, 'chunk hasher: %s' % chain)
             rec.need('update' in chain and 'digest' in chain, 'writer-hash', cf, None, 'chunk closure does not SHA-1 the chunk')
+            ups = [bb for bb in mirq.real_calls(cf) if cf.expr_call(bb)[1].endswith('Sha1::update')]
+            for ub in ups:
+                h = mirq.init_of(cf.expr_call(ub)[2][0])
+                fresh = h[0] == 'call' and h[1].endswith('Sha1::new')
+                rec.need(fresh, 'writer-hasher-shared', cf, ub,
+                         'the chunk closure updates a hasher that is not created inside it (%s): piece k would get the hash of chunks 0..k' % show(cf.expr_call(ub)[2][0])[:40])
+                rec.need(access_path(cf.expr_call(ub)[2][1]) in ('chunk', 'arg2'), 'writer-hash-input', cf, ub, 'hasher is fed %s' % show(cf.expr_call(ub)[2][1])[:40])
 
 
 @TABLE.rule('4', 'K7', 'both `length` and `files` present, or neither: error', floor=2)
@@ -275,3 +290,44 @@ def r5(cx, rec):
         bad = [c for c in chain if c in ('rev', 'sort', 'sort_by', 'sort_unstable', 'skip', 'take', 'step_by', 'dedup', 'filter', 'rchunks', 'swap', 'reverse')]
         rec.site(g[0], None, '%s chain %s' % (nm, chain))
         rec.need(not bad, 'reordering-adaptor/' + nm, g[0], None, '%s uses %s' % (nm, bad))
+
+
+@TABLE.rule('6', 'K6', 'accessor agreement: the piece count handed out is the length of the very vector that piece(i) indexes', floor=3)
+def r6(cx, rec):
+    F = cx.F
+    idx = None
+    for f in F.user_fns():
+        if f.self_ty == 'metainfo::Metainfo' and f.kind == 'AssocFn' and '[u8; ' in f.locals[0]['ty'] and f.locals[0]['ty'].startswith('&'):
+            for bb in mirq.real_calls(f):
+                e = f.expr_call(bb)
+                if e[4].get('name') == 'index':
+                    idx = (f, access_path(e[2][0]))
+    if idx is None:
+        raise AnchorMissing('piece hash accessor')
+    f, vec = idx
+    rec.site(f, None, 'piece(i) indexes %s' % vec)
+    # the count accessor: what the session passes as `pieces_num` to the connection tasks
+    counts = set()
+    for g in F.user_fns():
+        for bb in mirq.real_calls(g):
+            t = g.blocks[bb]['t']
+            if (t.get('callee') or '').endswith('PeerHandler::new') or (t.get('callee') or '').endswith('Peer::new'):
+                for a in g.expr_call(bb)[2]:
+                    for x in walk(a):
+                        if x[0] == 'call' and x[1].startswith('metainfo::Metainfo::') and F.fn(x[1]).locals[0]['ty'] == 'usize' and F.fn(x[1]).argc == 1:
+                            counts.add(x[1])
+    rec.need(len(counts) == 1, 'count-accessor', f, None, 'piece-count accessors used by the session: %s' % sorted(counts))
+    for cpath in counts:
+        cf = F.fn(cpath)
+        rets = [cf.expr_call(bb) for bb in mirq.real_calls(cf) if cf.blocks[bb]['t']['dest']['l'] == 0]
+        rets += [cf.expr_rvalue(s['rv']) for bi, si, s in cf.assigns() if s['lhs']['l'] == 0]
+        ok = len(rets) == 1 and rets[0][0] == 'call' and rets[0][4].get('name') == 'len' and access_path(rets[0][2][0]) == vec
+        rec.site(cf, None, '%s returns %s' % (cpath.split('::')[-1], [show(r)[:60] for r in rets]))
+        rec.need(ok, 'count-not-vector-length', cf, None,
+                 'the piece count is %s, not the length of %s: indices below the count can lie outside the hash vector (piece(i) panics)' % ([show(r)[:60] for r in rets], vec))
+    # total_length is the plain sum of the file lengths
+    tl = [g for g in F.user_fns() if g.self_ty == 'metainfo::Metainfo' and g.name == 'total_length']
+    for g in tl:
+        chain = [g.expr_call(bb)[4].get('name') for bb in mirq.real_calls(g)]
+        rec.site(g, None, 'total_length chain %s' % chain)
+        rec.need(chain == ['iter', 'map', 'sum'], 'total-length', g, None, 'total_length is computed by %s' % chain)
